@@ -128,6 +128,15 @@ func contexts() []wrap {
 		{"after-empty-escaped-filter", func(n *gen.Node) []*gen.Node {
 			return []*gen.Node{{Kind: gen.KFilter, Filter: "escaped"}, n, p("after")}
 		}},
+		// inside an element: a filter, then a line of white space only that is shorter than the filter body's indentation
+		{"after-filter-and-short-blank-line", func(n *gen.Node) []*gen.Node {
+			return []*gen.Node{{Kind: gen.KElem, Tag: "div", Kids: []*gen.Node{
+				{Kind: gen.KFilter, Filter: "plain", Lines: [][]gen.Part{{st("raw "), dyn("s1")}}}, {Kind: gen.KBlank}, n, p("z")}}}
+		}},
+		{"after-preserve-filter-and-short-blank-line", func(n *gen.Node) []*gen.Node {
+			return []*gen.Node{{Kind: gen.KElem, Tag: "div", Kids: []*gen.Node{
+				{Kind: gen.KFilter, Filter: "preserve", Lines: [][]gen.Part{{st("kept")}}}, {Kind: gen.KBlank}, n, p("z")}}}
+		}},
 		{"in-nuked-element", func(n *gen.Node) []*gen.Node {
 			return []*gen.Node{{Kind: gen.KElem, Tag: "div", NukeInner: true, NukeOuter: true, Kids: []*gen.Node{n}}, p("after")}
 		}},
@@ -189,6 +198,30 @@ func c02(c *Ctx) {
 	if rc.Stage != "ok" {
 		c.Rep.Notes = append(c.Rep.Notes, "site file did not build: "+rc.Stage+" "+clip(rc.Detail, 400))
 		c.mismatch("build", src, rc.Stage+": "+clip(rc.Detail, 300), "accepted", true)
+		// which templates does the toolchain choke on? one file per enclosing context, built on its own
+		full, _ := siteFile()
+		for ci, cx := range contexts() {
+			sub := &gen.File{Package: full.Package, Chrome: append([]string{}, full.Chrome...), Imports: append([]string{}, full.Imports...)}
+			var subNames []string
+			for _, t := range full.Templates {
+				var si, tci int
+				if n, _ := fmt.Sscanf(t.Name, "S%dC%d", &si, &tci); t.Name == "L0" || (n == 2 && tci == ci) {
+					sub.Templates = append(sub.Templates, t)
+					subNames = append(subNames, t.Name)
+				}
+			}
+			prepFile(sub)
+			_, subSrc := sub.Print()
+			b, stage, detail := rt.Build(subSrc, subNames, c.Repo)
+			if b != nil {
+				b.Close()
+			}
+			c.Rep.OracleCases++
+			if stage != "ok" {
+				c.fail("C02/not-executable/"+cx.name, "well-formed templates (every dynamic site in the context "+cx.name+") do not reach execution ("+stage+"): "+clip(strings.TrimSpace(detail), 200),
+					map[string]any{"file_hex": hx([]byte(subSrc)), "stage": stage})
+			}
+		}
 		return
 	}
 	c.tieRender(cases, true)
